@@ -2,7 +2,6 @@ package main
 
 import (
 	"context"
-	"errors"
 	"math/rand"
 	"net"
 	"net/http"
@@ -10,7 +9,6 @@ import (
 	"net/url"
 	"strconv"
 	"strings"
-	"sync"
 	"time"
 
 	httppkg "github.com/fatedier/frp/pkg/util/http"
@@ -30,16 +28,21 @@ import (
 //	canon <host>                           => <canonical host> | err
 //	spell <name> <dot 0|1> <port|->        => <canonical host> | err   (CanonicalHost of name[.][:port])
 //	hreq  <name> <dot> <port|-> <path> <user> => <id> | none      (a real request through HTTPReverseProxy.ServeHTTP with
-//	                                          Host: name[.][:port]; <id> = the route whose CreateConnFn was asked for a connection)
+//	                                          Host: name[.][:port]; <id> = the registration whose backend answered — over a new
+//	                                          connection or one the transport kept idle; none = the 404 page)
+//	copen / creq / cclose: requests sharing a client connection (keep-alive, h2c), see eng_router_conn.go
 type routerState struct {
-	hitMu   sync.Mutex
-	hits    []string
 	routers *vhost.Routers
 	rp      *vhost.HTTPReverseProxy
 	mux     *vhost.Muxer
 	ln      net.Listener
 	byID    map[int]*vhost.Listener
 	ids     map[*vhost.Listener]int
+	// connection part (eng_router_conn.go): the http.Server in front of rp, the client connections, the backends
+	srv    *http.Server
+	front_ net.Listener
+	conns  map[string]*rcConn
+	back   *rcBackends
 }
 
 var rst *routerState
@@ -47,6 +50,7 @@ var rst *routerState
 func routerReset() {
 	if rst != nil && rst.ln != nil {
 		rst.ln.Close()
+		rst.closeConns()
 	}
 	r := vhost.NewRouters()
 	ln, err := net.Listen("tcp", "127.0.0.1:0")
@@ -61,12 +65,17 @@ func routerReset() {
 		ln:      ln,
 		byID:    map[int]*vhost.Listener{},
 		ids:     map[*vhost.Listener]int{},
+		conns:   map[string]*rcConn{},
+		back:    &rcBackends{},
 	}
 }
 
 func routerExec(tok []string) string {
 	if rst == nil {
 		routerReset()
+	}
+	if r, ok := routerConnExec(rst, tok); ok {
+		return r
 	}
 	switch tok[0] {
 	case "reset":
@@ -76,12 +85,8 @@ func routerExec(tok []string) string {
 		st, id := rst, tok[4]
 		err := rst.rp.Register(vhost.RouteConfig{
 			Domain: unhx(tok[1]), Location: unhx(tok[2]), RouteByHTTPUser: unhx(tok[3]), RewriteHost: tok[4],
-			CreateConnFn: func(string) (net.Conn, error) {
-				st.hitMu.Lock()
-				st.hits = append(st.hits, id)
-				st.hitMu.Unlock()
-				return nil, errors.New("recording backend")
-			},
+			// the backend of this registration: it answers every request with X-Id: <id> and keeps the connection
+			CreateConnFn: func(string) (net.Conn, error) { return st.back.dial(id) },
 		})
 		if err != nil {
 			return "conflict"
@@ -128,13 +133,7 @@ func routerExec(tok []string) string {
 		}
 		return hx(h)
 	case "hreq":
-		rst.hitMu.Lock()
-		rst.hits = nil
-		rst.hitMu.Unlock()
-		routerServe(rst.rp, routerSpell(tok[1], tok[2], tok[3]), unhx(tok[4]), unhx(tok[5]))
-		rst.hitMu.Lock()
-		defer rst.hitMu.Unlock()
-		return routerHits(rst.hits)
+		return routerServe(rst.rp, routerSpell(tok[1], tok[2], tok[3]), unhx(tok[4]), unhx(tok[5]))
 	case "canon":
 		h, err := httppkg.CanonicalHost(unhx(tok[1]))
 		if err != nil {
@@ -157,9 +156,9 @@ func routerSpell(name, dot, port string) string {
 	return h
 }
 
-// routerServe sends one request through the real ServeHTTP (no sockets: the route's CreateConnFn
-// records who was asked for a backend connection and refuses, the client gets the 404 page).
-func routerServe(rp *vhost.HTTPReverseProxy, host, path, user string) int {
+// routerServe sends one request through the real ServeHTTP (no client socket): the id of the registration
+// whose backend answered it, none = the 404 page.
+func routerServe(rp *vhost.HTTPReverseProxy, host, path, user string) string {
 	req := &http.Request{
 		Method: "GET", URL: &url.URL{Path: path}, Host: host, Header: http.Header{},
 		Proto: "HTTP/1.1", ProtoMajor: 1, ProtoMinor: 1, RemoteAddr: "127.0.0.1:9",
@@ -169,20 +168,7 @@ func routerServe(rp *vhost.HTTPReverseProxy, host, path, user string) int {
 	}
 	rw := httptest.NewRecorder()
 	rp.ServeHTTP(rw, req.WithContext(context.Background()))
-	return rw.Code
-}
-
-// routerHits canonicalises the recorded backends of one request: none, the one id, or all of them.
-func routerHits(hits []string) string {
-	if len(hits) == 0 {
-		return "none"
-	}
-	for _, h := range hits {
-		if h != hits[0] {
-			return "many:" + strings.Join(hits, "+")
-		}
-	}
-	return hits[0]
+	return rcAnswer(rw.Code, rw.Header().Get("X-Id"))
 }
 
 // a spelling of a host name: letter case, trailing dot and port suffix are chosen independently
@@ -261,15 +247,30 @@ func routerGen(rng *rand.Rand, n int, emit func(string)) {
 	emit("reset")
 	id := 0
 	live := []int{}
+	g := &rcGenState{}
+	g.reset()
 	for i := 0; i < n; i++ {
+		// requests sharing a client connection, interleaved with registration changes (eng_router_conn.go)
+		if rng.Intn(30) == 0 {
+			i += g.episode(rng, &id, emit) - 1
+			continue
+		}
+		if rng.Intn(40) == 0 && g.late(rng, emit) {
+			continue
+		}
 		k := rng.Intn(100)
 		switch {
 		case k < 2:
 			emit("reset")
 			live = live[:0]
+			g.reset()
 		case k < 22:
 			id++
-			emit("add " + hx(genHost(rng)) + " " + hx(pick(rng, rLocs)) + " " + hx(pick(rng, rUsers)) + " " + strconv.Itoa(id))
+			r := rcReg{genHost(rng), pick(rng, rLocs), pick(rng, rUsers)}
+			if len(g.regs) < 40 {
+				g.regs = append(g.regs, r)
+			}
+			emit("add " + hx(r.dom) + " " + hx(r.loc) + " " + hx(r.user) + " " + strconv.Itoa(id))
 		case k < 32:
 			emit("del " + hx(genHost(rng)) + " " + hx(pick(rng, rLocs)) + " " + hx(pick(rng, rUsers)))
 		case k < 50:
@@ -307,3 +308,16 @@ func routerGen(rng *rand.Rand, n int, emit func(string)) {
 }
 
 func init() { register(&Engine{Name: "router", Gen: routerGen, Exec: routerExec}) }
+
+// routerHits canonicalises the recorded backends of one request: none, the one id, or all of them.
+func routerHits(hits []string) string {
+	if len(hits) == 0 {
+		return "none"
+	}
+	for _, h := range hits {
+		if h != hits[0] {
+			return "many:" + strings.Join(hits, "+")
+		}
+	}
+	return hits[0]
+}
